@@ -15,7 +15,11 @@ string / template and the second is refused or means something else.
 * `MType`, `Shown`     — the mechanism types of the check's catalogue and what an instance of them shows when it
                           runs (the subject it creates, whether it allows fallback, its `values`, the headers it
                           sets, its realm).
-* `overlay t proto v`  — `WithConfig`: `none` = refused (unknown key, wrong type, unparsable duration / template,
+* `CelEnv`, `decExpressions` — the `expressions` of the cel and remote authorizers: a list of `{expression, message}`
+                          maps whose `expression` strings must be boolean CEL expressions.  The static type of an
+                          expression text comes from a table (`CelEnv`, filled by the driver with `Cel.check` of the
+                          expression the text spells, `Model/FactoryCel.lean`); accepted iff that type is `bool`.
+* `overlay Γ t proto v` — `WithConfig`: `none` = refused (unknown key, wrong type, unparsable duration / template,
                           a type that cannot be reconfigured), otherwise what the variant shows.  **Bug-compatible**
                           with the strict decoders and with the constructors' defaults (`subject: ""` gives
                           `anonymous`, `realm: ""` gives `Please authenticate`), with one exception named at
@@ -185,12 +189,39 @@ def decTemplates : Option Val → Option (List (Text × Text))
 /-- `ErrorUnused: true` -/
 def knownKeys (fs : Flds) (keys : List Text) : Bool := fs.keys.all keys.contains
 
+/-- What the CEL parser and type checker say about an expression text: `none` — it does not compile (syntax error,
+undeclared variable or function, no matching overload; also: a text the table does not list), `some t` — its static
+result type. -/
+abbrev CelEnv := Text → Option CelTy
+
+/-- the entries of a `[]Expression` (`validate:"dive"`): maps with the keys `expression` (`required`: a non-empty
+string) and `message` (a string, or unset); `compileExpressions` then hands every `expression` to
+`cellib.CompileExpression`, which lets it through iff its static type is `bool` -/
+def Vals.expressions (Γ : CelEnv) : Vals → Option (List Text)
+  | .nil => some []
+  | .cons (.obj fs) rest =>
+    if knownKeys fs [t!"expression", t!"message"] && (decText (fs.get t!"message")).isSome then
+      match fs.get t!"expression" with
+      | some (.str src) =>
+        if !src.isEmpty && ((Γ src).map compiles).getD false then (rest.expressions Γ).map (src :: ·) else none
+      | _ => none
+    else none
+  | .cons _ _ => none
+
+/-- the `expressions` key: absent / `null` — none given; a list — its entries; anything else is refused -/
+def decExpressions (Γ : CelEnv) : Option Val → Option (List Text)
+  | none => some []
+  | some .null => some []
+  | some (.list es) => es.expressions Γ
+  | _ => none
+
 /-! ## The mechanism types of the check's catalogue -/
 
 inductive MType
   | generic          -- `generic` authenticator
   | anonymous        -- `anonymous` authenticator
   | remote           -- `remote` authorizer
+  | cel              -- `cel` authorizer
   | genericCtx       -- `generic` contextualizer
   | header           -- `header` finalizer
   | redirect         -- `redirect` error handler
@@ -210,14 +241,17 @@ structure Shown where
   headers : List (Text × Text) := []
   /-- www_authenticate error handler -/
   realm : Text := []
+  /-- cel and remote authorizers: the expressions they verify (source text) -/
+  expressions : List Text := []
   deriving DecidableEq, Repr, Inhabited
 
 /-- `values.Values.Merge`: the override's entries win, the others stay -/
 def mergeValues (old new : List (Text × Text)) : List (Text × Text) :=
   new ++ old.filter fun e => !new.any fun n => n.1 == e.1
 
-/-- **`prototype.WithConfig(config)`** for a prototype of type `t` showing `p`: `none` — refused -/
-def overlay (t : MType) (p : Shown) : Val → Option Shown
+/-- **`prototype.WithConfig(config)`** for a prototype of type `t` showing `p`: `none` — refused.  `Γ` types the
+CEL expressions the value may carry. -/
+def overlay (Γ : CelEnv) (t : MType) (p : Shown) : Val → Option Shown
   | .obj fs =>
     if fs.isEmpty then some p               -- `len(config) == 0`: the prototype itself, for every type
     else match t with
@@ -235,9 +269,18 @@ def overlay (t : MType) (p : Shown) : Val → Option Shown
       if knownKeys fs [t!"cache_ttl", t!"allow_fallback_on_error"] && decDuration (fs.get t!"cache_ttl") then
         (decFlag (fs.get t!"allow_fallback_on_error")).map fun f => { p with fallback := f.getD p.fallback }
       else none
-    | .remote =>
-      if knownKeys fs [t!"cache_ttl", t!"values"] && decDuration (fs.get t!"cache_ttl") then
-        (decTemplates (fs.get t!"values")).map fun vs => { p with values := mergeValues p.values vs }
+    | .remote =>                            -- `expressions`: the own ones if at least one is given
+      if knownKeys fs [t!"cache_ttl", t!"values", t!"expressions"] && decDuration (fs.get t!"cache_ttl") then
+        match decTemplates (fs.get t!"values"), decExpressions Γ (fs.get t!"expressions") with
+        | some vs, some es =>
+          some { p with values := mergeValues p.values vs, expressions := if es.isEmpty then p.expressions else es }
+        | _, _ => none
+      else none
+    | .cel =>                               -- built by the constructor from the override alone: `required,gt=0`
+      if knownKeys fs [t!"expressions"] then
+        match decExpressions Γ (fs.get t!"expressions") with
+        | some (e :: es) => some { p with expressions := e :: es }
+        | _ => none
       else none
     | .genericCtx =>
       if knownKeys fs [t!"cache_ttl", t!"values", t!"continue_pipeline_on_error"] &&
@@ -268,6 +311,8 @@ structure Typed where
   mech : Kind → String → Option TMech
   ovr : Nat → Option Val := fun _ => none
   tags : List Nat := []
+  /-- the static types of the CEL expression texts in use -/
+  cel : CelEnv := fun _ => none
 
 /-- **`mechanismsFactory.Create…(id, config)`** on values: nothing but the catalogue entry and the value matter -/
 def Typed.create (T : Typed) (k : Kind) (id : String) (conf : Option Val) : Option Shown :=
@@ -276,7 +321,7 @@ def Typed.create (T : Typed) (k : Kind) (id : String) (conf : Option Val) : Opti
   | some m =>
     match conf with
     | none => some m.proto
-    | some v => overlay m.type m.proto v
+    | some v => overlay T.cel m.type m.proto v
 
 /-- a `Create…` call -/
 abbrev Request := Kind × String × Option Val
@@ -295,7 +340,7 @@ def Typed.variant (T : Typed) (k : Kind) (id : String) (cfg : Option Nat) : Opti
     | some n =>
       match m.legacy.lookup n with
       | some s => some s
-      | none => if T.tags.contains n then (T.ovr n).bind (overlay m.type m.proto) else none
+      | none => if T.tags.contains n then (T.ovr n).bind (overlay T.cel m.type m.proto) else none
 
 /-- the abstract catalogue the rule factory model works with: a mechanism accepts exactly the override tags whose
 value its `WithConfig` accepts -/
@@ -322,7 +367,7 @@ def Typed.memoCreate (T : Typed) (key : Val → Text) (memo : List (MemoKey × S
       match memoFind memo (r.1, r.2.1, key v) with
       | some s => (memo, some s)
       | none =>
-        match overlay m.type m.proto v with
+        match overlay T.cel m.type m.proto v with
         | some s => (((r.1, r.2.1, key v), s) :: memo, some s)
         | none => (memo, none)
 
